@@ -456,8 +456,8 @@ func (w *_nodeRepr) Length() int64 {
 	case schema.UnionRepresentation_Keyed:
 		return (*_node)(w).Length()
 	case schema.UnionRepresentation_Kinded:
-		w = w.asKinded(stg, w.Kind())
-		return (*_node)(w).Length()
+		// the member is seen through its own representation (a struct member omits absent fields, say)
+		return w.asKinded(stg, w.Kind()).Length()
 	default:
 		return (*_node)(w).Length()
 	}
